@@ -127,7 +127,12 @@ class Scratch:
 					self.write('data/grammar.lark', f.read(), EPOCH_NS - 10**12)
 			else:
 				os.symlink(src, os.path.join(data, name))
-		os.makedirs(os.path.join(self.root, 'tpl'))
+		# project-level template directory placed before data/cpp/template (documented usage of emit_depends, py2cpp.py):
+		# without it Py2Cpp's per-transpile dependency stack is unobservable because no shipped template emits a dependency
+		for name, include in (('string', '<string>'), ('float', '<cfloat>')):
+			with open(os.path.join(src_data, 'cpp', 'template', 'literal', f'{name}.j2'), 'rb') as f:
+				original = f.read()
+			self.write(f'tpl/literal/{name}.j2', ("{{- emit_depends('" + include + "') -}}").encode() + original, EPOCH_NS - 10**12)
 
 	def path(self, rel: str) -> str:
 		return os.path.join(self.root, rel)
